@@ -318,6 +318,7 @@ def run(P, rep, tier):
     r1318(W, rep)
     r1319(W, engs, rep)
     r1320(W, engs, rep)
+    r1321(W, engs, rep)
     r1322(P, W, rep)
     r1323(P, rep, tier)
     for rule, fam in (('R13.13', LD.r1313_function), ('R13.14', LD.r1314_declspec), ('R13.15', LD.r1315_typing), ('R13.16', LD.r1316_constexpr)):
@@ -2134,8 +2135,47 @@ def r1319(W, engs, rep):
         for key, (ok, msg, where, facts) in sorted(obs.items()):
             n += 1
             rep.ob('R13.19', key, ok, msg, where=where, facts=facts)
-    rep.extra['host_array_indices'] = {'out_parameters_that_carry_an_input_value (derived: function#parameter -> [source, not negative on every return, bounded above on every return])':
-                                       {'%s#%d' % (f, i + 1): [v[0][1], v[1], v[2]] for (f, i), v in sorted(W.out_taint.items())}}
+    rep.extra['host_array_indices'] = {'out_parameters_that_carry_an_input_value (derived: function#parameter -> [source, not negative on every return, bounded above on every return, strictly below on every return, at most on every return])':
+                                       {'%s#%d' % (f, i + 1): [v[0][1], v[1], v[2]] + [sorted('param#%d%s' % (k + 1, suf) for k, suf in x) for x in v[3:5]] for (f, i), v in sorted(W.out_taint.items())}}
+
+
+def r1321(W, engs, rep):
+    """an index into an array whose element count the owner records must be strictly below that count"""
+    rep.rule('R13.21', 'where the front end subscripts an array field whose storage was allocated with an element count that is reachable from the owner of the field (derived from the '
+                       'allocation sites: `X->F = calloc(X->G->H, ..)` gives len(X->F) = X->G->H) and the index is limited by comparisons with that count (directly, through a variable that '
+                       'is itself limited by it, or through a bound a callee establishes on every return for a value it stores through an out-parameter), the limit is strict: an index that '
+                       'may equal the count addresses the element one past the allocation (NULL or foreign heap data are then used as an element: SIGSEGV or corruption instead of a located diagnostic)', floor=4)
+    specs = {'%s.%s' % k: sorted(x for x in v if x) for k, v in sorted(W.len_specs.items())}
+    if not specs:
+        rep.undecided('R13.21', 'tables:element-counts', 'no array field whose element count is a path from its owner was derived from the allocation sites any more')
+        return
+    unj = []
+    for (un, f), e in sorted(engs.items()):
+        if un == 'codegen.c':
+            continue
+        obs = {}
+        for d in e.lidx.values():
+            node = d['node']
+            base = '%s:%s:%s' % (un, f, _canon(node.inner[0]))
+            where = '%s:%d' % (un, node.line)
+            if d['bad'] is not None:
+                b = d['bad']
+                key = '%s[%s]:index<=%s' % (base, b['index'], b['bound'].replace(' ', ''))
+                obs[key] = (False, '%s() subscripts `%s` with `%s`, which is only known to be at most `%s`%s (a non-strict comparison): the array has exactly that many elements (%s.%s is allocated with '
+                                   '%s elements), so an index equal to the count -- e.g. a designator `[a ... N]` / `[N]` for an array of N elements -- addresses the element one past the allocation; what '
+                                   'lies there (NULL or foreign heap data) is then used as an element: SIGSEGV or silent corruption instead of the diagnostic "index exceeds array bounds"%s'
+                                   % (f, node.inner[0].src(), node.inner[1].src(), b['bound'], (' through `%s`' % b['via']) if b['via'] else '', d['rec'], d['field'],
+                                      ' / '.join('owner' + x for x in d['sufs']), '' if b['tier'] == 1 else ' (the count compared with is that of another type object; assumed to describe the same array)'), where, {'bound': b})
+            elif d['ok']:
+                key = '%s[%s]:below-count' % (base, _canon(node.inner[1]))
+                if key not in obs:
+                    obs[key] = (True, '', where, {'tier': d['tier']})
+            else:
+                unj.append('%s[%s]' % (base, _canon(node.inner[1])))
+        for key, (ok, msg, where, facts) in sorted(obs.items()):
+            rep.ob('R13.21', key, ok, msg, where=where, facts=facts)
+    rep.extra['array_element_counts'] = {'derived (record.field -> count, as a path from the owner)': specs,
+                                         'subscripts_not_judged (no comparison of the index with an element count is known at the subscript)': sorted(set(unj))}
 
 
 # --------------------------------------------------------------------------------------------
